@@ -38,6 +38,14 @@
                               output although a later action is holding an older event of the stream.
    Named mechanisms (TRUE = what the code does; FALSE = mutant, must violate StatementOK: Join_mutsel.cfg,
    Join_mutprop.cfg):
+     M_FlushCopiesBuffer    : flush() gives the event a COPY of the run buffer (string(p.buff)): the text of a flushed
+                              event is a value fixed at the flush. Mutant (Join_mutalias.cfg): the text aliases the buffer,
+                              which the next run overwrites in place, so an output that looks at the event later sees
+                              bytes of later runs.
+     M_StartCheckIsTheTemplates : whether a line starts a run is decided by the templates' own start patterns, and
+                              some allow leading white space (cs_exception: ^\s*Unhandled exception; go_panic: "http: panic
+                              serving" anywhere in the line). Classes S1i / S2i (chain "ind") = such an indented start
+                              line. Mutant (Join_mutind.cfg): an indented line never starts a run.
      M_PropagateResetsBusyFirst : Propagate clears busyActions[holder] BEFORE it sends the flushed event through the
                               remaining actions. If a later action stops that event, the nested processEvent sees
                               nothing busy and returns into the suspended join.Do. In the mutant (reset after) the
@@ -57,7 +65,9 @@ CONSTANTS MaxLen1,        \* maximal sequence length, one template, chain "none"
           D5_TimeoutToLastAction,
           D15_BreakBypassesHold,
           M_BusyIgnoresSelector,
-          M_PropagateResetsBusyFirst
+          M_PropagateResetsBusyFirst,
+          M_FlushCopiesBuffer,
+          M_StartCheckIsTheTemplates
 
 VARIABLES cs,             \* the case: [nt, neg, M, pre, seq]
           i,              \* events of the stream consumed so far
@@ -83,20 +93,26 @@ ClassesOf(nt, pre) == {"S1", "C1", "O", "NF", "NS"}
                       \cup (IF pre = "break" THEN {"B"} ELSE {})
                       \cup (IF pre = "sel" THEN {"XO", "XN"} ELSE {})
                       \cup (IF pre = "post" THEN {"S1d", "Od"} ELSE {})
+                      \cup (IF pre = "ind" THEN {"S1i"} \cup (IF nt = 2 THEN {"S2i"} ELSE {}) ELSE {})
 \* what the join sees when it is handed an event that does not satisfy its selector
-Content(c) == CASE c = "XO" -> "O" [] c = "XN" -> "NF" [] c = "S1d" -> "S1" [] c = "Od" -> "O" [] OTHER -> c
+Content(c) == CASE c = "XO" -> "O" [] c = "XN" -> "NF" [] c = "S1d" -> "S1" [] c = "Od" -> "O"
+                   [] c = "S1i" -> (IF M_StartCheckIsTheTemplates THEN "S1" ELSE "O")
+                   [] c = "S2i" -> (IF M_StartCheckIsTheTemplates THEN "S2" ELSE "O")
+                   [] OTHER -> c
+\* what the statement says the line is (the template's documented pattern)
+Declared(c) == CASE c = "S1i" -> "S1" [] c = "S2i" -> "S2" [] OTHER -> c
 DropCls == {"S1d", "Od"}                 \* carry the mark the discarding action after the join matches
-MaxLenOf(nt, pre) == IF pre # "none" THEN MaxLenPre ELSE IF nt = 2 THEN MaxLen2 ELSE MaxLen1
+MaxLenOf(nt, pre) == IF nt = 2 THEN MaxLen2 ELSE IF pre # "none" THEN MaxLenPre ELSE MaxLen1
 SeqsOver(S, n) == UNION {[1..m -> S] : m \in 0..n}
 
-JI == IF cs.pre \in {"none", "sel", "post"} THEN 0 ELSE 1      \* index of the join in the chain
+JI == IF cs.pre \in {"none", "sel", "post", "ind"} THEN 0 ELSE 1      \* index of the join in the chain
 
 -----------------------------------------------------------------------------
 (* ---------------- the declarative statement: JoinOracle.tla; here only the chain "post" wrapper ---------------- *)
 
 \* chain "post": the action after the join removes the events that carry its mark -- passed events and whole
 \* flushed runs (the joined event is the run's first event, with its other fields)
-Strip(seq) == [k \in 1..Len(seq) |-> IF seq[k] \in DropCls THEN Content(seq[k]) ELSE seq[k]]
+Strip(seq) == [k \in 1..Len(seq) |-> IF seq[k] \in DropCls THEN Content(seq[k]) ELSE Declared(seq[k])]
 OutputX(seq, neg, T, ns) ==
   SelectSeq(Output(Strip(seq), neg, T, ns), LAMBDA it : seq[it.ids[1]] \notin DropCls)
 
@@ -106,7 +122,8 @@ OutputX(seq, neg, T, ns) ==
 Init ==
   /\ \E nt \in {1, 2} : \E pre \in Pres : \E M \in Ms :
        \E neg \in [1..nt -> BOOLEAN] : \E seq \in SeqsOver(ClassesOf(nt, pre), MaxLenOf(nt, pre)) :
-         /\ nt = 2 => pre = "none" /\ ~(neg[1] /\ neg[2])      \* only one negating template exists
+         /\ nt = 2 => pre \in {"none", "ind"} /\ ~(neg[1] /\ neg[2])      \* only one negating template exists
+         /\ pre = "ind" => \E k \in 1..Len(seq) : seq[k] \in {"S1i", "S2i"}
          /\ pre = "discard" => \E k \in 1..Len(seq) : seq[k] = "D"
          /\ pre = "break" => \E k \in 1..Len(seq) : seq[k] = "B"
          /\ pre = "sel" => \E k \in 1..Len(seq) : seq[k] \in {"XO", "XN"}
@@ -131,6 +148,13 @@ Dropped(id) == cs.pre = "post" /\ cs.seq[id] \in DropCls
 \* through the remaining actions (dropped there: the nested processEvent finds nothing busy and returns)
 Flushed(o) == IF Dropped(buff[1]) THEN o ELSE Append(o, [k |-> "j", ids |-> buff])
 Passed(o) == IF Dropped(i + 1) THEN o ELSE Append(o, [k |-> "p", ids |-> <<i + 1>>])
+\* mutant of M_FlushCopiesBuffer: the text of the events flushed earlier is a view of the run buffer nb
+AliasFix(o, nb) ==
+  IF M_FlushCopiesBuffer THEN o
+  ELSE [n \in 1..Len(o) |->
+          IF o[n].k = "j"
+            THEN [o[n] EXCEPT !.ids = [m \in 1..Len(o[n].ids) |-> IF m <= Len(nb) THEN nb[m] ELSE o[n].ids[m]]]
+            ELSE o[n]]
 StackSame == UNCHANGED <<stack, resume>>
 \* the event was passed on by the join (busy reset): a nested processEvent returns to its suspended caller
 ReturnsFromNested == stack' = stack /\ resume' = (stack # <<>>)
@@ -190,7 +214,7 @@ DoNoField ==
 DoStart ==
   /\ CanStep /\ EvC \in StartCls
   /\ ~SuspendCond
-  /\ out' = IF isJoining THEN Flushed(out) ELSE out
+  /\ out' = AliasFix(IF isJoining THEN Flushed(out) ELSE out, <<i + 1>>)
   /\ buff' = <<i + 1>> /\ isJoining' = TRUE /\ curT' = TOf(EvC)
   /\ busy' = TRUE /\ blocked' = TRUE /\ lastAction' = JI          \* ActionHold
   /\ i' = i + 1
@@ -202,9 +226,10 @@ DoContinue ==
   /\ CanStep /\ ReachesJoin /\ EvC \notin StartCls /\ EvC # "NF"
   /\ isJoining /\ NextOK(EvC)
   /\ buff' = IF cs.M = 0 \/ Len(buff) < cs.M THEN Append(buff, i + 1) ELSE buff
+  /\ out' = AliasFix(out, buff')
   /\ blocked' = TRUE /\ lastAction' = JI
   /\ i' = i + 1
-  /\ UNCHANGED <<cs, to, toMis, isJoining, curT, busy, out, dev, pc>>
+  /\ UNCHANGED <<cs, to, toMis, isJoining, curT, busy, dev, pc>>
   /\ StackSame
 
 (* join.Do, otherwise: flush if joining, ActionPass *)
